@@ -39,29 +39,6 @@ Proof.
   intros [<-|H]; auto.
 Qed.
 
-Lemma omap_all_some {A B} (f : A -> option B) l :
-  (forall x, In x l -> exists y, f x = Some y) -> exists ys, omap_all f l = Some ys.
-Proof.
-  induction l as [|x r IH]; simpl; intros H; [eauto|].
-  destruct (H x (or_introl eq_refl)) as [y ->].
-  destruct IH as [ys ->]; eauto.
-Qed.
-
-Lemma omap_all_F2 {A B} (f : A -> option B) l ys :
-  omap_all f l = Some ys -> Forall2 (fun x y => f x = Some y) l ys.
-Proof.
-  revert ys. induction l as [|x r IH]; simpl; intros ys H.
-  - inversion H; constructor.
-  - destruct (f x) eqn:E; [|discriminate]. destruct (omap_all f r); [|discriminate].
-    inversion H; subst. constructor; auto.
-Qed.
-
-Lemma existsb_false {A} (f : A -> bool) l : existsb f l = false -> forall x, In x l -> f x = false.
-Proof.
-  induction l as [|y r IH]; simpl; [tauto|].
-  intros H x [<-|Hx]; apply orb_false_iff in H; destruct H; auto.
-Qed.
-
 (* ------------------------------------------------------------------ *)
 (* the values of a group variable inside one group *)
 Lemma key_of_eq gv r r0 : key_of gv r = key_of gv r0 -> forall g, In g gv -> lookup g r = lookup g r0.
@@ -93,37 +70,27 @@ Proof. intros ->. reflexivity. Qed.
 (* ------------------------------------------------------------------ *)
 (* one group *)
 Section OneGroup.
-  Variables (gv : list var) (aggs : list (var * aggspec)) (h : option having).
+  Variables (gv : list var) (aggs : list (var * aggspec)).
   Hypothesis Hwf : NoDup (gv ++ map fst aggs).
   Variables (m : list sol) (k : gkey).
-  Hypothesis Hsafe : forall a, In a (map snd aggs) -> agg_safe a m /\ ext_safe a m.
   Hypothesis Hkey : forall r, In r m -> key_of gv r = k.
   Hypothesis Hne : gv <> [] -> m <> [].
   Hypothesis Himp : gv = [] -> k = [].
 
   Lemma group_row_ok :
-    exists row, group_row gv aggs m = Some row
-      /\ key_of gv row = k
-      /\ (forall b, In b row -> In (fst b) (gv ++ map fst aggs))
-      /\ (forall va, In va aggs -> agg_adm (snd va) m (lookup (fst va) row) = true).
+    let row := group_row gv aggs m in
+    key_of gv row = k
+    /\ (forall b, In b row -> In (fst b) (gv ++ map fst aggs))
+    /\ (forall va, In va aggs -> agg_adm (snd va) m (lookup (fst va) row) = true).
   Proof.
     unfold group_row.
-    destruct (omap_all_some (fun va => option_map (pair (fst va)) (agg_run (snd va) m)) aggs) as [avs Havs].
-    { intros va Hva. destruct (Hsafe (snd va)) as [Hs _]; [apply in_map; auto|].
-      destruct (agg_run_some _ _ Hs) as [o ->]. simpl. eauto. }
-    rewrite Havs. eexists. split; [reflexivity|].
-    apply omap_all_F2 in Havs.
-    assert (Hfst : map fst avs = map fst aggs).
-    { clear -Havs. induction Havs as [|va av l l' H1 H2 IH]; simpl; auto.
-      destruct (agg_run (snd va) m); simpl in H1; inversion H1; subst. simpl. now f_equal. }
     set (L1 := map (fun g => (g, hd_error (bound (ovals g m)))) gv).
-    assert (HL1 : map fst L1 = gv).
-    { unfold L1. rewrite map_map. simpl. apply map_id. }
-    rewrite <- entries_app.
-    assert (Hnd : NoDup (map fst (L1 ++ avs))) by (rewrite map_app, HL1, Hfst; exact Hwf).
-    split; [|split].
-    - (* key *)
-      destruct (nil_or_not gv) as [Egv|Egv].
+    set (L2 := map (fun va : var * aggspec => (fst va, agg_run (snd va) m)) aggs).
+    assert (HL1 : map fst L1 = gv) by (unfold L1; rewrite map_map; simpl; apply map_id).
+    assert (HL2 : map fst L2 = map fst aggs) by (unfold L2; rewrite map_map; reflexivity).
+    assert (Hnd : NoDup (map fst (L1 ++ L2))) by (rewrite map_app, HL1, HL2; exact Hwf).
+    simpl. split; [|split].
+    - destruct (nil_or_not gv) as [Egv|Egv].
       + rewrite (Himp Egv). now apply key_of_nil.
       + destruct (exists_in _ (Hne Egv)) as [r0 Hr0].
         rewrite <- (Hkey r0 Hr0). unfold key_of. apply map_ext_in.
@@ -134,113 +101,27 @@ Section OneGroup.
           rewrite (Hkey r Hr). symmetry. now apply Hkey.
         * apply in_or_app. left. unfold L1.
           apply in_map_iff. exists g. split; auto.
-    - intros b Hb. apply entries_dom in Hb. now rewrite map_app, HL1, Hfst in Hb.
+    - intros b Hb. apply entries_dom in Hb. now rewrite map_app, HL1, HL2 in Hb.
     - intros va Hva.
-      destruct (Hsafe (snd va)) as [Hs He]; [apply in_map; auto|].
-      assert (exists o, In (fst va, o) avs /\ agg_run (snd va) m = Some o) as [o [Ho Hrun]].
-      { clear -Havs Hva. induction Havs as [|x av l l' H1 H2 IH]; [destruct Hva|].
-        destruct Hva as [<-|Hva].
-        - destruct (agg_run (snd x) m) as [o|]; simpl in H1; inversion H1; subst. exists o. simpl; auto.
-        - destruct (IH Hva) as [o [Ho Hr]]. exists o. simpl; auto. }
-      rewrite (lookup_entries (fst va) o); auto; [|apply in_or_app; auto].
-      now apply agg_run_adm.
+      rewrite (lookup_entries (fst va) (agg_run (snd va) m)); auto; [apply agg_run_adm|].
+      apply in_or_app. right. unfold L2. apply in_map_iff. exists va. auto.
   Qed.
 End OneGroup.
 
 (* ------------------------------------------------------------------ *)
-(* the trigger predicate unpacked *)
-Lemma has_unbound_sub v m inp :
-  (forall r, In r m -> In r inp) -> has_unbound (ovals v m) = true -> has_unbound (ovals v inp) = true.
-Proof.
-  unfold has_unbound, ovals. rewrite !existsb_exists. intros Hs [o [Ho Hn]].
-  exists o. split; auto. apply in_map_iff in Ho. destruct Ho as [r [<- Hr]]. apply in_map. auto.
-Qed.
-
-Lemma numeric_sub v m inp :
-  (forall r, In r m -> In r inp) -> forallb is_numeric (bound (ovals v inp)) = true ->
-  forallb is_numeric (bound (ovals v m)) = true.
-Proof.
-  intros Hs. apply forallb_sub. intros x. rewrite !In_bound. unfold ovals.
-  rewrite !in_map_iff. intros [r [E Hr]]. exists r. auto.
-Qed.
-
-Lemma kf_zero c gv :
-  c_group c = Some gv -> kf c = 0%N ->
-  (gv <> [] -> c_input c = [] -> c_having c <> None)
-  /\ (forall a m, In a (all_aggs c) -> (forall r, In r m -> In r (c_input c)) -> agg_safe a m)
-  /\ (forall a g, In a (map snd (c_aggs c)) -> In g (groups_of gv (c_input c)) -> ext_safe a (snd g)).
-Proof.
-  intros Hg Hk. unfold kf in Hk. rewrite Hg in Hk.
-  set (inp := c_input c) in *.
-  set (E4 := existsb (fun a => kind_needs_bound (a_kind a) && a_distinct a && has_unbound (arg_vals a inp)) (all_aggs c)) in *.
-  set (E1 := existsb (fun a => is_kind_sum (a_kind a) && negb (forallb is_numeric (bound (arg_vals a inp)))) (all_aggs c)) in *.
-  set (E2 := existsb (fun a => is_kind_avg (a_kind a) && negb (forallb is_numeric (bound (arg_vals a inp)))) (all_aggs c)) in *.
-  set (E3 := existsb (fun a => ext_nonlit a gv inp) (map snd (c_aggs c))) in *.
-  assert (Hrest : (if E4 then 4 else if E1 then 1 else if E2 then 2 else if E3 then 3 else 0)%N = 0%N
-                  /\ (gv <> [] -> inp = [] -> c_having c <> None)).
-  { destruct gv as [|g gv']; [split; [exact Hk|congruence]|].
-    destruct inp as [|r inp']; [|split; [exact Hk|discriminate]].
-    destruct (c_having c); [split; [exact Hk|discriminate]|discriminate]. }
-  destruct Hrest as [Hr H5]. split; [exact H5|].
-  destruct E4 eqn:H4; [discriminate|]. destruct E1 eqn:H1; [discriminate|].
-  destruct E2 eqn:H2; [discriminate|]. destruct E3 eqn:H3; [discriminate|].
-  split.
-  - intros a m Ha Hsub. unfold agg_safe. destruct (a_arg a) as [v|] eqn:Ea; auto.
-    pose proof (existsb_false _ _ H4 a Ha) as G4. pose proof (existsb_false _ _ H1 a Ha) as G1.
-    pose proof (existsb_false _ _ H2 a Ha) as G2. simpl in G4, G1, G2.
-    unfold arg_vals in *. rewrite Ea in *. split.
-    + destruct (kind_needs_bound (a_kind a) && a_distinct a) eqn:Eb; auto. simpl in *.
-      destruct (has_unbound (ovals v m)) eqn:Eu; auto.
-      rewrite (has_unbound_sub v m inp Hsub Eu) in G4. discriminate.
-    + intros Hkind. apply (numeric_sub v m inp Hsub).
-      destruct (is_kind_sum (a_kind a)); simpl in *.
-      * now apply negb_false_iff in G1.
-      * rewrite Hkind in G2. now apply negb_false_iff in G2.
-  - intros a g Ha Hgin. pose proof (existsb_false _ _ H3 a Ha) as G3. simpl in G3.
-    unfold ext_nonlit in G3. unfold ext_safe.
-    destruct (a_arg a) as [v|]; auto. destruct (a_kind a); auto.
-    + apply (existsb_false _ _ G3 g Hgin).
-    + apply (existsb_false _ _ G3 g Hgin).
-Qed.
-
-(* ------------------------------------------------------------------ *)
 (* the aggregation stage *)
-Lemma group_out_ok c gv g :
-  c_group c = Some gv -> wf c = true -> kf c = 0%N ->
-  In g (groups_of gv (c_input c)) ->
-  snd g = members gv (fst g) (c_input c) ->
-  (gv <> [] -> snd g <> []) -> (gv = [] -> fst g = []) ->
-  exists row, group_out gv (c_aggs c) (c_having c) (snd g) = Some (having_holds (c_having c) (snd g), row)
-    /\ key_of gv row = fst g /\ row_ok gv (c_aggs c) (c_input c) row = true.
+Lemma having_eval_holds gv h m k :
+  match h with Some (HKey v _ _) => In v gv | _ => True end ->
+  (forall r, In r m -> key_of gv r = k) -> (gv <> [] -> m <> []) ->
+  having_eval h m = having_holds h m.
 Proof.
-  intros Hg Hwf Hk Hin Hm Hne Himp.
-  destruct (kf_zero c gv Hg Hk) as [_ [Hsafe Hext]].
-  assert (Hnd : NoDup (gv ++ map fst (c_aggs c))).
-  { unfold wf in Hwf. rewrite Hg in Hwf. apply andb_true_iff in Hwf.
-    now apply (nodupb_spec _ N_eqb_spec). }
-  assert (Hsub : forall r, In r (snd g) -> In r (c_input c)).
-  { intros r. rewrite Hm, members_In. tauto. }
-  destruct (group_row_ok gv (c_aggs c) Hnd (snd g) (fst g)) as [row [Hrow [Hkey [Hdom Hadm]]]]; auto.
-  { intros a Ha. split; [apply Hsafe; auto|apply Hext; auto].
-    unfold all_aggs. apply in_or_app. auto. }
-  { intros r. rewrite Hm, members_In. tauto. }
-  exists row. unfold group_out. rewrite Hrow. split; [|split; [exact Hkey|]].
-  - unfold having_holds. destruct (c_having c) as [[ha op n|v ne iri]|] eqn:Eh; auto.
-    + destruct (agg_run_some ha (snd g)) as [o ->]; auto.
-      apply Hsafe; auto. unfold all_aggs. rewrite Eh. apply in_or_app. simpl; auto.
-    + assert (Hv : In v gv).
-      { unfold wf in Hwf. rewrite Hg, Eh in Hwf. apply andb_true_iff in Hwf.
-        apply (memb_In _ N_eqb_spec). tauto. }
-      assert (Hgv : gv <> []) by (intros E; rewrite E in Hv; destruct Hv).
-      assert (Hall : forall r, In r (snd g) -> key_of gv r = fst g).
-      { intros r. rewrite Hm, members_In. tauto. }
-      destruct (snd g) as [|r0 ms] eqn:Es; [exfalso; apply (Hne Hgv); reflexivity|].
-      rewrite (sample_const v (lookup v r0) (r0 :: ms)); [reflexivity| |discriminate].
-      intros r Hr. apply key_of_eq with (gv := gv); auto.
-      rewrite (Hall r Hr). symmetry. apply Hall. simpl; auto.
-  - unfold row_ok. rewrite Hkey, <- Hm. apply andb_true_iff. split.
-    + apply forallb_forall. intros b Hb. apply (memb_In _ N_eqb_spec). auto.
-    + apply forallb_forall. auto.
+  unfold having_eval, having_holds. destruct h as [[ha op n|v ne iri]|]; auto.
+  intros Hv Hkey Hne.
+  assert (Hgv : gv <> []) by (intros E; rewrite E in Hv; destruct Hv).
+  specialize (Hne Hgv). destruct m as [|r0 ms]; [congruence|].
+  rewrite (sample_const v (lookup v r0) (r0 :: ms)); [reflexivity| |discriminate].
+  intros r Hr. apply key_of_eq with (gv := gv); auto.
+  rewrite (Hkey r Hr). symmetry. apply Hkey. simpl; auto.
 Qed.
 
 Lemma NoDup_map_filter {A B} (f : A -> B) (p : A -> bool) l :
@@ -252,91 +133,95 @@ Proof.
   apply filter_In in Hy. apply in_map_iff. exists y. tauto.
 Qed.
 
-Lemma outs_keys (gv : list var) (f : gkey * list sol -> option (bool * sol))
-      (hh : list sol -> bool) (ok : sol -> bool) l outs :
-  Forall2 (fun x y => f x = Some y) l outs ->
-  (forall g, In g l -> exists row, f g = Some (hh (snd g), row) /\ key_of gv row = fst g /\ ok row = true) ->
-  map (key_of gv) (map snd (filter fst outs)) = map fst (filter (fun g => hh (snd g)) l)
-  /\ forall row, In row (map snd (filter fst outs)) -> ok row = true.
+Lemma groups_facts gv inp g : In g (groups_of gv inp) ->
+  snd g = members gv (fst g) inp /\ (gv <> [] -> snd g <> []) /\ (gv = [] -> fst g = []).
 Proof.
-  induction 1 as [|g out l l' H1 H2 IH]; intros Hall; simpl; [split; [auto|tauto]|].
-  destruct (Hall g) as [row [Ho [Hkey Hrow]]]; [simpl; auto|].
-  rewrite Ho in H1. inversion H1; subst. simpl.
-  destruct IH as [IH1 IH2]; [intros g' Hg'; apply Hall; simpl; auto|].
-  destruct (hh (snd g)); simpl; [|split; auto].
-  split; [now rewrite Hkey, IH1|]. intros r [<-|Hr]; auto.
+  destruct g as [k ms]. intros Hin. destruct gv as [|g0 gv'].
+  - simpl in Hin. destruct Hin as [E|[]]. inversion E; subst. simpl.
+    rewrite members_nil. repeat split; auto; congruence.
+  - unfold groups_of in Hin. destruct (group_partition (g0 :: gv') inp) as [_ [Hkm _]].
+    apply Hkm in Hin. simpl. destruct Hin. repeat split; auto; discriminate.
 Qed.
 
-Theorem agg_ok_model c :
-  wf c = true -> kf c = 0%N -> exists a, agg_stage c = Some a /\ agg_ok c a = true.
+Lemma agg_ok_groups_model c gv :
+  c_group c = Some gv -> wf c = true ->
+  agg_ok_groups c gv (map (fun g => group_row gv (c_aggs c) (snd g))
+                          (filter (fun g => having_eval (c_having c) (snd g)) (groups_of gv (c_input c)))) = true.
 Proof.
-  intros Hwf Hk. unfold agg_stage, agg_ok.
-  destruct (c_group c) as [gv|] eqn:Hg.
-  2:{ eexists. split; [reflexivity|apply rows_eqb_refl]. }
-  set (inp := c_input c). set (hh := fun ms => having_holds (c_having c) ms).
-  (* facts about every group *)
-  assert (Hgroups : forall g, In g (groups_of gv inp) ->
-            snd g = members gv (fst g) inp /\ (gv <> [] -> snd g <> []) /\ (gv = [] -> fst g = [])).
-  { intros [k ms] Hin. destruct gv as [|g0 gv'].
-    - simpl in Hin. destruct Hin as [E|[]]. inversion E; subst. simpl.
-      rewrite members_nil. repeat split; auto; congruence.
-    - unfold groups_of in Hin. destruct (group_partition (g0 :: gv') inp) as [_ [Hkm _]].
-      apply Hkm in Hin. simpl. destruct Hin. repeat split; auto; discriminate. }
-  unfold eval_aggjoin.
-  destruct (groups_of gv inp) as [|g1 gs'] eqn:Egs.
-  - (* no group at all: explicit GROUP BY over no solutions *)
-    destruct gv as [|g0 gv']; [discriminate|].
-    assert (Hin : inp = []).
-    { destruct inp as [|r inp'] eqn:Ei; auto. exfalso.
-      destruct (group_partition (g0 :: gv') (r :: inp')) as [_ [_ Hall]].
-      unfold groups_of in Egs. rewrite Egs in Hall. apply (Hall r). simpl; auto. }
-    destruct (kf_zero c _ Hg Hk) as [H5 _].
-    destruct (c_having c) eqn:Eh; [|exfalso; apply H5; auto; discriminate].
-    eexists. split; [reflexivity|]. fold inp. rewrite Hin. reflexivity.
-  - rewrite <- Egs in *. set (gs := groups_of gv inp) in *.
-    assert (Hout : forall g, In g gs -> exists row,
-              group_out gv (c_aggs c) (c_having c) (snd g) = Some (hh (snd g), row)
-              /\ key_of gv row = fst g /\ row_ok gv (c_aggs c) inp row = true).
-    { intros g Hin. destruct (Hgroups g Hin) as [Hm [Hne Himp]].
-      apply (group_out_ok c gv g); auto. }
-    destruct (omap_all_some (fun g => group_out gv (c_aggs c) (c_having c) (snd g)) gs) as [outs Houts].
-    { intros g Hin. destruct (Hout g Hin) as [row [-> _]]. eauto. }
-    rewrite Houts. eexists. split; [reflexivity|].
-    apply omap_all_F2 in Houts.
-    (* the rows that come out, against the groups *)
-    assert (Hkeys : map (key_of gv) (map snd (filter fst outs)) = map fst (filter (fun g => hh (snd g)) gs)
-                    /\ forall row, In row (map snd (filter fst outs)) -> row_ok gv (c_aggs c) inp row = true).
-    { apply (outs_keys gv _ hh _ gs outs Houts Hout). }
-    destruct Hkeys as [Hkeys Hrows]. fold inp.
-    set (allkeys := match gv with [] => [[]] | _ :: _ => map (key_of gv) inp end).
-    assert (Hnd : NoDup (map fst gs)).
-    { unfold gs, groups_of. destruct gv; [simpl; constructor; [tauto|constructor]|].
-      apply group_partition. }
-    assert (Hgin : forall k, In k (map fst (filter (fun g => hh (snd g)) gs)) <->
-                             In k (filter (fun k => hh (members gv k inp)) allkeys)).
-    { intros k. rewrite in_map_iff, filter_In. split.
-      - intros [[k' ms] [E Hin]]. simpl in E. subst k'. apply filter_In in Hin. destruct Hin as [Hin Hh].
-        destruct (Hgroups _ Hin) as [Hm [Hne Himp]]. simpl in *. subst ms. split; auto.
-        unfold allkeys. destruct gv as [|g0 gv'] eqn:Egv; [rewrite Himp; simpl; auto|].
-        destruct (members (g0 :: gv') k inp) as [|r ms'] eqn:Em; [exfalso; apply Hne; [discriminate|auto]|].
-        assert (Hr : In r (members (g0 :: gv') k inp)) by (rewrite Em; simpl; auto).
-        apply members_In in Hr. destruct Hr as [Hr <-]. now apply in_map.
-      - intros [Hk' Hh]. exists (k, members gv k inp). split; auto. apply filter_In. split; auto.
-        unfold gs, groups_of, allkeys in *. destruct gv as [|g0 gv'].
-        + destruct Hk' as [<-|[]]. rewrite members_nil. simpl; auto.
-        + apply in_map_iff in Hk'. destruct Hk' as [r [<- Hr]].
-          apply group_partition. exact Hr. }
-    rewrite Hkeys. repeat (apply andb_true_iff; split).
-    + apply (nodupb_spec _ gkey_eqb_spec). now apply NoDup_map_filter.
-    + apply forallb_forall. intros k Hk'. apply (memb_In _ gkey_eqb_spec). now apply Hgin.
-    + apply forallb_forall. intros k Hk'. apply (memb_In _ gkey_eqb_spec). now apply Hgin.
-    + apply forallb_forall. exact Hrows.
+  intros Hg Hwf. set (inp := c_input c). set (gs := groups_of gv inp).
+  set (hh := fun ms => having_holds (c_having c) ms).
+  unfold wf in Hwf. rewrite Hg in Hwf. apply andb_true_iff in Hwf. destruct Hwf as [Hnd0 Hhk].
+  apply (nodupb_spec _ N_eqb_spec) in Hnd0.
+  assert (Hhk' : match c_having c with Some (HKey v _ _) => In v gv | _ => True end).
+  { destruct (c_having c) as [[| v ne iri]|]; auto. now apply (memb_In _ N_eqb_spec). }
+  assert (Hall : forall g, In g gs -> forall r, In r (snd g) -> key_of gv r = fst g).
+  { intros g Hin r. destruct (groups_facts _ _ _ Hin) as [Hm _]. rewrite Hm, members_In. tauto. }
+  assert (Hfilter : filter (fun g => having_eval (c_having c) (snd g)) gs = filter (fun g => hh (snd g)) gs).
+  { apply filter_ext_in. intros g Hin. destruct (groups_facts _ _ _ Hin) as [Hm [Hne Himp]].
+    apply (having_eval_holds gv _ _ (fst g)); auto. }
+  rewrite Hfilter.
+  assert (Hrow : forall g, In g gs ->
+            key_of gv (group_row gv (c_aggs c) (snd g)) = fst g
+            /\ row_ok gv (c_aggs c) inp (group_row gv (c_aggs c) (snd g)) = true).
+  { intros g Hin. destruct (groups_facts _ _ _ Hin) as [Hm [Hne Himp]].
+    destruct (group_row_ok gv (c_aggs c) Hnd0 (snd g) (fst g)) as [Hkey [Hdom Hadm]]; auto.
+    split; [exact Hkey|]. unfold row_ok. rewrite Hkey. fold inp in Hm. rewrite <- Hm.
+    apply andb_true_iff. split.
+    - apply forallb_forall. intros b Hb. apply (memb_In _ N_eqb_spec). auto.
+    - apply forallb_forall. auto. }
+  assert (Hkeys : map (key_of gv) (map (fun g => group_row gv (c_aggs c) (snd g)) (filter (fun g => hh (snd g)) gs))
+                  = map fst (filter (fun g => hh (snd g)) gs)).
+  { rewrite map_map. apply map_ext_in. intros g Hin. apply filter_In in Hin. now apply Hrow. }
+  unfold agg_ok_groups. fold inp. rewrite Hkeys.
+  set (allkeys := match gv with [] => [[]] | _ :: _ => map (key_of gv) inp end).
+  assert (Hnd : NoDup (map fst gs)).
+  { unfold gs, groups_of. destruct gv; [simpl; constructor; [tauto|constructor]|].
+    apply group_partition. }
+  assert (Hgin : forall k, In k (map fst (filter (fun g => hh (snd g)) gs)) <->
+                           In k (filter (fun k => hh (members gv k inp)) allkeys)).
+  { intros k. rewrite in_map_iff, filter_In. split.
+    - intros [[k' ms] [E Hin]]. simpl in E. subst k'. apply filter_In in Hin. destruct Hin as [Hin Hh].
+      destruct (groups_facts _ _ _ Hin) as [Hm [Hne Himp]]. simpl in *. subst ms. split; auto.
+      unfold allkeys. destruct gv as [|g0 gv'] eqn:Egv; [rewrite Himp; simpl; auto|].
+      destruct (members (g0 :: gv') k inp) as [|r ms'] eqn:Em; [exfalso; apply Hne; [discriminate|auto]|].
+      assert (Hr : In r (members (g0 :: gv') k inp)) by (rewrite Em; simpl; auto).
+      apply members_In in Hr. destruct Hr as [Hr <-]. now apply in_map.
+    - intros [Hk' Hh]. exists (k, members gv k inp). split; auto. apply filter_In. split; auto.
+      unfold gs, groups_of, allkeys in *. destruct gv as [|g0 gv'].
+      + destruct Hk' as [<-|[]]. rewrite members_nil. simpl; auto.
+      + apply in_map_iff in Hk'. destruct Hk' as [r [<- Hr]].
+        apply group_partition. exact Hr. }
+  repeat (apply andb_true_iff; split).
+  - apply (nodupb_spec _ gkey_eqb_spec). now apply NoDup_map_filter.
+  - apply forallb_forall. intros k Hk'. apply (memb_In _ gkey_eqb_spec). now apply Hgin.
+  - apply forallb_forall. intros k Hk'. apply (memb_In _ gkey_eqb_spec). now apply Hgin.
+  - apply forallb_forall. intros row Hr. apply in_map_iff in Hr. destruct Hr as [g [<- Hin]].
+    apply filter_In in Hin. now apply Hrow.
 Qed.
+
+Theorem agg_ok_model c : wf c = true -> agg_ok c (agg_stage c) = true.
+Proof.
+  intros Hwf. unfold agg_stage, agg_ok.
+  destruct (c_group c) as [gv|] eqn:Hg; [|apply rows_eqb_refl].
+  pose proof (agg_ok_groups_model c gv Hg Hwf) as G.
+  unfold eval_aggjoin. destruct gv as [|g0 gv'].
+  - exact G.
+  - destruct (c_input c) as [|r inp'] eqn:Ei.
+    + simpl. destruct (c_having c); reflexivity.
+    + destruct (groups_of (g0 :: gv') (r :: inp')) as [|g1 gs'] eqn:Egs; [|exact G].
+      exfalso. destruct (group_partition (g0 :: gv') (r :: inp')) as [_ [_ Hallr]].
+      unfold groups_of in Egs. rewrite Egs in Hallr. apply (Hallr r). simpl; auto.
+Qed.
+
+(* GROUP BY over no solutions: both readings are accepted *)
+Lemma agg_ok_empty_both c g0 gv' :
+  c_group c = Some (g0 :: gv') -> c_input c = [] -> agg_ok c [] = true /\ agg_ok c [[]] = true.
+Proof. intros Hg Hi. unfold agg_ok. rewrite Hg, Hi. split; reflexivity. Qed.
 
 (* ------------------------------------------------------------------ *)
 (* the theorem that ties model and checker *)
-Theorem spec_ok_model c : wf c = true -> kf c = 0%N -> spec_ok c (model_obs c) = true.
+Theorem spec_ok_model c : wf c = true -> spec_ok c (model_obs c) = true.
 Proof.
-  intros Hwf Hk. destruct (agg_ok_model c Hwf Hk) as [a [Ha Hok]].
-  unfold model_obs. rewrite Ha. simpl. rewrite Hok, post_ok_model, rows_eqb_refl. reflexivity.
+  intros Hwf. unfold model_obs, spec_ok.
+  rewrite (agg_ok_model c Hwf), post_ok_model, rows_eqb_refl. reflexivity.
 Qed.
